@@ -138,6 +138,7 @@ pub fn c10(tier: Tier) -> i32 {
     let mut rep = Report::new("C10", tier, "model_checking");
     common(&mut rep);
     solo_std(&mut rep, "C10", tier, true);
+    crate::seq_full::c10_payload_paths(&mut rep, tier);
     let mut cfgs = vec![cfg_h4(3, tier.pick(1, 2), tier)];
     cfgs.extend(match tier {
         Tier::Quick => h3c_all(5, 3, tier),
